@@ -142,7 +142,7 @@ def exc_sig(prefix, exc):
 
 class Clause:
     def __init__(self, name, strategy, check, quick, thorough, rule,
-                 examples=(), enumerate=None, budget_s=(150, 1500)):
+                 examples=(), enumerate=None, budget_s=(150, 1500), quick_shards=1):
         self.name = name            # e.g. 'C17.history'
         self.strategy = strategy    # None for enumerated clauses
         self.check = check
@@ -151,6 +151,7 @@ class Clause:
         self.rule = rule            # text: generator + non-triviality rule
         self.examples = list(examples)
         self.enumerate = enumerate  # callable(tier) -> iterable of cases (finite, complete)
+        self.quick_shards = quick_shards  # processes used by the quick tier (each runs `quick` cases)
         self.budget_s = budget_s    # wall-clock cap (quick, thorough); a hit is 'inconclusive', never a violation
 
     def evaluate(self, case):
